@@ -33,10 +33,17 @@ namespace {
         int64_t exec( int op, int64_t uid, int64_t, int64_t& )
         {
             switch ( op ) {
-            case S_PUSH_BACK: return q.enqueue( Val( uid )) ? 1 : 0;
+            case S_PUSH_BACK:
+                // copy and move overloads of both synonyms (the copy forms take an lvalue)
+                switch ( uid & 3 ) {
+                case 0: { Val t( uid ); return q.enqueue( t ) ? 1 : 0; }
+                case 1: return q.enqueue( Val( uid )) ? 1 : 0;
+                case 2: { Val t( uid ); return q.push( t ) ? 1 : 0; }
+                default: return q.push( Val( uid )) ? 1 : 0;
+                }
             case S_POP_FRONT: {
                 Val v;
-                if ( !q.dequeue( v )) return -1;
+                if ( !(( uid & 1 ) ? q.dequeue( v ) : q.pop( v ))) return -1;
                 if ( !v.good()) return ( int64_t( 1 ) << 62 ) | ( v.uid & 0xffffff );   // corrupted / invented item: no model state admits it
                 return v.uid;
             }
